@@ -259,6 +259,11 @@ pub fn toolkit_decrypt(key: &[u8; 16], nonce: MessageNonce, msg: &[u8], aad: &[u
     crypto::decrypt_message(key, nonce, msg, aad).ok()
 }
 
+/// A `WhoAreYouRef` as the handler would hand it to the service (for harnesses that play the handler).
+pub fn make_whoareyou_ref(node_address: NodeAddress, nonce: MessageNonce) -> WhoAreYouRef {
+    WhoAreYouRef(node_address, nonce)
+}
+
 /// The message nonce a `WhoAreYouRef` refers to.
 pub fn whoareyou_ref_nonce(r: &WhoAreYouRef) -> MessageNonce {
     r.1
